@@ -1,0 +1,66 @@
+//go:build verif
+
+// Export for the external verification harness (property C13: final outputs
+// are materialised under outs/).  Compiled only with -tags verif; adds no
+// behaviour to normal builds.
+
+package core
+
+import (
+	"context"
+	"fmt"
+
+	"github.com/martian-lang/martian/martian/util"
+)
+
+type verifNullWriter struct{}
+
+func (verifNullWriter) Write(b []byte) (int, error)       { return len(b), nil }
+func (verifNullWriter) WriteString(s string) (int, error) { return len(s), nil }
+
+// VerifPostProcess builds a pipestance for the call in src over psPath
+// exactly the way TestPostProcess does (a minimal runtime, no job ever
+// runs), writes outs as the _outs file of every fork of the top-level
+// pipeline node (one entry of outs per fork), runs Fork.postProcess on each
+// and returns the rewritten _outs files.
+//
+// setupErr is non-nil if the pipestance could not be built.  ppErrs[i] is
+// the error returned by the i-th fork's postProcess.
+func VerifPostProcess(src []byte, srcPath, psid, psPath string,
+	outs [][]byte) (newOuts [][]byte, ppErrs []error, setupErr error) {
+	util.SetPrintLogger(verifNullWriter{})
+	conf := DefaultRuntimeOptions()
+	rt := Runtime{
+		Config: &conf,
+		LocalJobManager: &LocalJobManager{
+			jobSettings: new(JobManagerSettings),
+		},
+	}
+	rt.JobManager = rt.LocalJobManager
+	_, _, pipestance, err := rt.instantiatePipeline(src, srcPath, psid, psPath,
+		nil, "none", nil, false, false, context.Background())
+	if err != nil {
+		return nil, nil, err
+	}
+	defer pipestance.Unlock()
+	forks := pipestance.node.forks
+	if len(forks) != len(outs) {
+		return nil, nil, fmt.Errorf("verif: %d forks but %d outs given",
+			len(forks), len(outs))
+	}
+	for i, fork := range forks {
+		if err := fork.metadata.WriteRawBytes(OutsFile, outs[i]); err != nil {
+			return nil, nil, err
+		}
+	}
+	for _, fork := range forks {
+		err := fork.postProcess(context.Background())
+		ppErrs = append(ppErrs, err)
+		b, rerr := fork.metadata.readRawBytes(OutsFile)
+		if rerr != nil {
+			return nil, nil, rerr
+		}
+		newOuts = append(newOuts, b)
+	}
+	return newOuts, ppErrs, nil
+}
